@@ -38,6 +38,7 @@ def lin(t) -> bool:
 
 
 VALUES = {
+    "U3": (["UnitSum", 1, 3], ["Unit", 3]),
     "TRUE": (["TRUE"], B),
     "INT": (["IntV", 3, 5], I),
     "TUP": (["TupleV", [["TRUE"], ["IntV", 1, 5]]], ["Tuple", [B, I]]),
@@ -79,6 +80,7 @@ class Ctx:
         self.calls = 0
         self.handles: list = []  # (label, handle, expected outputs) for the C16 monitor
         self.closed_blocks: list = []
+        self.consts: list = []  # {"node", "ty", "scope": frame uid | None (root)}
         self.dead: list = []  # copyable wires of closed frames: (W, kind of the closed frame)
         self.cfgs: list = []
         self.features: set = set()
@@ -175,6 +177,64 @@ def build_op(name, param=None):
     raise AssertionError(name)
 
 
+# ------------------------------------------------------------------------------ fragments for insert_*
+def _frag_dfg():
+    from hugr import tys
+    from hugr.build.dfg import Dfg
+    from hugr.std.logic import Not
+
+    d = Dfg(tys.Bool)
+    n = d.add(Not(d.inputs()[0]), metadata={"frag": 1})
+    d.add_state_order(d.input_node, n)
+    d.set_outputs(n, n)
+    return d
+
+
+def _frag_cfg():
+    from hugr import tys
+    from hugr.build.cfg import Cfg
+
+    c = Cfg(tys.Bool)
+    with c.add_entry() as e:
+        e.set_block_outputs(e.inputs()[0], e.inputs()[0])
+    with c.add_successor(e[0]) as s:
+        s.set_single_succ_outputs(*s.inputs())
+    c.branch_exit(s[0])
+    c.branch_exit(e[1])
+    return c
+
+
+def _frag_cond():
+    from hugr import tys
+    from hugr.build.cond_loop import Conditional
+
+    c = Conditional(tys.Bool, [tys.Bool])
+    for i in range(2):
+        with c.add_case(i) as cs:
+            cs.set_outputs(*cs.inputs(), *cs.inputs())
+    return c
+
+
+def _frag_loop():
+    from hugr import ops, tys
+    from hugr.build.cond_loop import TailLoop
+
+    t = TailLoop([tys.Bool], [tys.Bool])
+    a, b = t.inputs()
+    tag = t.add_op(ops.Break(tys.Either([tys.Bool], [tys.Bool, tys.Bool])), a, b)
+    t.set_loop_outputs(tag, b)
+    return t
+
+
+#: name -> (thunk, wanted wire types, output types, builder method)
+FRAGMENTS = {
+    "dfg": (_frag_dfg, [BOOL], [BOOL, BOOL], "insert_nested"),
+    "cfg": (_frag_cfg, [BOOL], [BOOL], "insert_cfg"),
+    "cond": (_frag_cond, [BOOL, BOOL], [BOOL, BOOL], "insert_conditional"),
+    "loop": (_frag_loop, [BOOL, BOOL], [BOOL, BOOL, BOOL], "insert_tail_loop"),
+}
+
+
 # ------------------------------------------------------------------------------ scenarios
 @dataclass
 class Scenario:
@@ -202,6 +262,13 @@ def start(sc: Scenario) -> Ctx:
         d = Dfg(*[T.build_type(t) for t in sc.row])
         ctx.root, ctx.hugr = d, d.hugr
         ctx.push("dfg", d, sc.row, is_root=True)
+    elif sc.root == "tracked":
+        from hugr.build.tracked_dfg import TrackedDfg
+
+        d = TrackedDfg(*[T.build_type(t) for t in sc.row], track_inputs=True)
+        ctx.root, ctx.hugr = d, d.hugr
+        f = ctx.push("dfg", d, sc.row, is_root=True)
+        f.info["tracked"] = list(f.wires)
     elif sc.root == "module":
         m = Module()
         ctx.root, ctx.hugr = m, m.hugr
@@ -304,11 +371,50 @@ def enabled(ctx: Ctx) -> list:
                 for k in range(0, sc.max_args + 1):
                     for c in _args_choices(ctx, None, k):
                         calls.append(["cfg", [w.id for w in c]])
+        stack_uids = {f.uid for f in ctx.frames}
+        # constants as separate nodes (here or at the root), loaded any number of times
+        if sc.extra.get("const_ops"):
+            if len(ctx.consts) < sc.extra.get("max_consts", 2):
+                for v in sc.loads:
+                    calls.append(["const", v, "here"])
+                    calls.append(["const", v, "root"])
+            for ci, c in enumerate(ctx.consts):
+                if c["scope"] is None or c["scope"] in stack_uids:
+                    calls.append(["loadc", ci])
+        # pre-built fragments inserted with wires
+        for fname in sc.extra.get("inserts", ()):
+            want = FRAGMENTS[fname][1]
+            for c in _args_choices(ctx, want, len(want)):
+                calls.append(["insert", fname, [w.id for w in c]])
+        # a function defined inside this dataflow region
+        for ld in sc.extra.get("local_defs", ()):
+            if not any(f["name"] == ld[0] for f in ctx.funcs) and depth < sc.max_depth:
+                calls.append(["ldef", ld[0], ld[1], ld[2]])
+        # index-based commands of the tracked builder
+        if top.info.get("tracked") is not None:
+            tr = top.info["tracked"]
+            live = [i for i, wid in enumerate(tr) if wid is not None]
+            for name in sc.ops:
+                if name in ("Not", "Noop"):
+                    for i in live:
+                        if name == "Noop" or ctx.wires[tr[i]].ty == B:
+                            calls.append(["iop", name, [i]])
+                elif name == "DivMod":
+                    for i, j in itertools.product(live, repeat=2):
+                        if ctx.wires[tr[i]].ty == I and ctx.wires[tr[j]].ty == I:
+                            calls.append(["iop", name, [i, j]])
+            for i in live:
+                calls.append(["untrack", i])
+            for w in ctx.visible():
+                if w.id not in tr and w.frame_uid == top.uid:
+                    calls.append(["track", w.id])
         # function calls (module scenarios)
         if ctx.funcs and "call" in sc.extra.get("fn_ops", ()):
             for fi, f in enumerate(ctx.funcs):
                 if f["out"] is None:
                     continue  # outputs unknown: cannot be called yet
+                if f.get("scope") is not None and f["scope"] not in stack_uids:
+                    continue  # a locally defined function is only visible below its defining region
                 for ii, (targs, irow, orow) in enumerate(f["insts"]):
                     for c in _args_choices(ctx, irow, len(irow)):
                         calls.append(["call", fi, [w.id for w in c], ii])
@@ -349,6 +455,11 @@ def close_choices(ctx: Ctx) -> list:
     top = ctx.top
     sc = ctx.sc
     out = []
+    if top.info.get("tracked") is not None:
+        tr = [ctx.wires[w] for w in top.info["tracked"] if w is not None]
+        ids = [w.id for w in tr]
+        if _consumes_all(ctx, ids) and _no_dup_lin(ctx, ids):
+            out.append(["close_tracked"])
     if top.kind in ("dfg", "func", "case"):
         want = top.info.get("want")  # established contract row (cases after the first, declared functions)
         for c in _rows_with(ctx, want, sc.extra.get("max_out", 2)):
@@ -582,6 +693,79 @@ def apply(ctx: Ctx, call) -> None:
         top.nodes.append(n)
         ctx.new_wire(["G", irow, orow, []], n.out(0), n)
         ctx.features.add("load-function")
+    elif kind == "const":
+        from mc.drivers.opterms import build_value
+
+        spec, ty = VALUES[call[1]]
+        if call[2] == "here":
+            node = b.add_const(build_value(spec), parent=b.parent_node)
+            scope = top.uid
+        else:
+            node = b.add_const(build_value(spec))
+            scope = None
+        ctx.consts.append({"node": node, "ty": ty, "scope": scope})
+        ctx.features.add("const-node")
+    elif kind == "loadc":
+        c = ctx.consts[call[1]]
+        n = b.load(c["node"])
+        top.nodes.append(n)
+        ctx.new_wire(c["ty"], n.out(0), n)
+        ctx.handles.append(("load(node)", n, 1))
+        ctx.features.add("const")
+        if sum(1 for x in ctx.wires.values() if x.node is n) and len([1 for p in ctx.hugr.linked_ports(c["node"].out(0))]) > 1:
+            ctx.features.add("const-loaded-twice")
+    elif kind == "insert":
+        fname = call[1]
+        ws = [ctx.wires[i] for i in call[2]]
+        thunk, want, outs, how = FRAGMENTS[fname]
+        fb = thunk()
+        hs = [w.h for w in ws]
+        if how == "insert_tail_loop":
+            n = b.insert_tail_loop(fb, hs[:1], hs[1:])
+        elif how == "insert_conditional":
+            n = b.insert_conditional(fb, hs[0], *hs[1:])
+        else:
+            n = getattr(b, how)(fb, *hs)
+        _consume(ctx, ws)
+        top.nodes.append(n)
+        for i, t in enumerate(outs):
+            ctx.new_wire(t, n.out(i), n)
+        ctx.handles.append((how, n, len(outs)))
+        ctx.features.add("insert")
+    elif kind == "ldef":
+        name, row, declared = call[1], call[2], call[3]
+        f = b.define_function(name, [T.build_type(t) for t in row], [T.build_type(t) for t in declared] if declared is not None else None, parent=b.parent_node)
+        fd = {"name": name, "node": f.parent_node, "in": row, "out": declared, "b": f, "open": True, "params": [], "scope": top.uid}
+        fd["insts"] = _insts(sc, fd)
+        ctx.funcs.append(fd)
+        ctx.push("func", f, row, barrier=True, want=declared, fidx=len(ctx.funcs) - 1)
+        ctx.features.add("local-function")
+    elif kind == "iop":
+        name, idxs = call[1], call[2]
+        tr = top.info["tracked"]
+        ws = [ctx.wires[tr[i]] for i in idxs]
+        res = op_result(name, [w.ty for w in ws])
+        if res is None:
+            raise WellFormednessBug(call)
+        n = b.add(build_op(name)(*idxs))
+        _consume(ctx, ws)
+        top.nodes.append(n)
+        new = [ctx.new_wire(t, n.out(i), n) for i, t in enumerate(res)]
+        for p, i in enumerate(idxs):
+            tr[i] = new[p].id
+        ctx.features.add("tracked-command")
+    elif kind == "untrack":
+        b.untrack_wire(call[1])
+        top.info["tracked"][call[1]] = None
+    elif kind == "track":
+        b.track_wire(ctx.wires[call[1]].h)
+        top.info["tracked"].append(call[1])
+    elif kind == "close_tracked":
+        tr = [ctx.wires[w] for w in top.info["tracked"] if w is not None]
+        b.set_tracked_outputs()
+        _consume(ctx, tr)
+        ctx.frames.pop()
+        ctx.handles.append(("TrackedDfg builder", b, len(tr)))
     elif kind == "callind":
         fw = ctx.wires[call[1]]
         ws = [ctx.wires[i] for i in call[2]]
